@@ -15,10 +15,10 @@ if ! cargo build --offline --profile verif >"$LOG" 2>&1; then
   exit 2
 fi
 rm -f "$LOG"
-if [ "$TIER" = "thorough" ] && [ $# -eq 0 ] && { [ "$ID" = "C01" ] || [ "$ID" = "C02" ]; }; then
+if [ "$TIER" = "thorough" ] && [ $# -eq 0 ] && case "$ID" in C01|C02|C03|C04|C05|C06|C08) true;; *) false;; esac; then
   /verif/harness/target/verif/verif check "$ID" --tier "$TIER"; rc=$?
   [ $rc -eq 0 ] || exit $rc
-  # coverage-guided supplement (E6); its findings are re-judged by the harness oracle
+  # coverage-guided supplement (E6: parse/render targets; E6b: diff target); its findings are re-judged by the harness oracle
   /verif/tools/fuzz.sh "$ID" "${VERIF_FUZZ_SECONDS:-120}"
   exit $?
 fi
